@@ -5,6 +5,7 @@ import (
 	"errors"
 	"fmt"
 	"reflect"
+	"runtime"
 	"sync"
 	"sync/atomic"
 	"time"
@@ -158,6 +159,9 @@ func (r *rcv) Receive(c *actor.Context) {
 	// Receiver state that "needs no synchronisation" (C02): a plain field written by every invocation.
 	// In a -race build the detector reports two invocations that are not ordered by happens-before.
 	w.plainState++
+	for i := 0; i < w.spec.Spin; i++ {
+		runtime.Gosched()
+	}
 	e := Entry{Who: "R", Inc: r.inc, From: w.fromIndex(c.Sender())}
 	switch m := c.Message().(type) {
 	case actor.Initialized:
